@@ -19,7 +19,8 @@ CONSTANT Devs
 
 VARIABLES c, e,     \* case and event cursor
           dat,      \* exact summary of the training data
-          num,      \* TRUE while the published numbers are finite and inside the arithmetic (else only shapes are judged)
+          num,      \* TRUE while the published numbers are on the grid and inside the arithmetic (else only shapes are judged;
+                    \* NaN / infinity is never accepted)
           obs,      \* observation record assembled from the model and transform events (<<>> before)
           regular,  \* the fit was classified as regular (structure clauses were demanded)
           used      \* deviations that were needed
@@ -67,7 +68,8 @@ TModel ==
   /\ FitKind /\ HasEv("model") /\ e = 3
   /\ LET shape == IF IsSvdVariant THEN SvdShapeWhy(dat, K, Ev) ELSE ShapeWhy(dat, K, Ev)
          why == IF shape # "ok" THEN shape
-                ELSE IF ~Ev.fin THEN "non-finite-model"
+                ELSE IF Ev.nan THEN "non-finite-model"
+                ELSE IF ~Ev.fin THEN (IF Must THEN "model-off-grid" ELSE "ok")
                 ELSE IF IsSvdVariant THEN "ok"
                 ELSE CentreWhy(dat, Ev)
      IN Judge1(why, /\ num' = Ev.fin
@@ -94,7 +96,10 @@ TTransform ==
   /\ FitKind /\ HasEv("transform") /\ e = 4
   /\ IF Ev.st # <<dat.n, K>> \/ Ev.su # <<dat.n, K>> \/ ~IsMat(Ev.t, dat.n, K) \/ ~IsMat(Ev.u, dat.n, K)
        THEN Reject("shape-scores")
-     ELSE IF ~num \/ ~Ev.fin THEN Reject("non-finite-scores")
+     ELSE IF Ev.nan THEN Reject("non-finite-scores")
+     ELSE IF ~num \/ ~Ev.fin
+       THEN (IF Must THEN Reject("scores-off-grid")
+             ELSE num' = FALSE /\ Adv /\ UNCHANGED <<obs, regular, used>>)
      ELSE IF IsSvdVariant
        THEN LET strict == SvdTransformWhy(Ev, {})
                 final  == IF strict = "ok" \/ Devs = {} THEN strict ELSE SvdTransformWhy(Ev, Devs)
@@ -114,8 +119,8 @@ TTransform ==
 TInverse ==
   /\ FitKind /\ HasEv("inverse") /\ e = 5 /\ ~IsSvdVariant
   /\ IF Ev.sx # <<dat.n, dat.p>> \/ Ev.sy # <<dat.n, dat.q>> THEN Reject("shape-inverse")
-     ELSE IF ~Ev.fin THEN Reject("non-finite-inverse")
-     ELSE IF ~num \/ obs = <<>> THEN num' = num /\ Adv /\ UNCHANGED <<obs, regular, used>>
+     ELSE IF Ev.nan THEN Reject("non-finite-inverse")
+     ELSE IF ~num \/ ~Ev.fin \/ obs = <<>> THEN num' = num /\ Adv /\ UNCHANGED <<obs, regular, used>>
      ELSE Judge1(IF ~InverseOk(obs.t, obs.xl, dat.bx.mean, dat.bx.std, Ev.x) THEN "inverse-x"
                  ELSE IF ~InverseOk(obs.u, obs.yl, dat.by.mean, dat.by.std, Ev.y) THEN "inverse-y"
                  ELSE "ok",
@@ -125,8 +130,8 @@ TInverse ==
 TPredict ==
   /\ FitKind /\ HasEv("predict") /\ e = 6 /\ ~IsSvdVariant
   /\ IF Ev.sy # <<dat.n, dat.q>> THEN Reject("shape-predict")
-     ELSE IF ~Ev.fin THEN Reject("non-finite-predict")
-     ELSE IF ~num \/ obs = <<>> THEN Adv /\ UNCHANGED <<num, obs, regular, used>>
+     ELSE IF Ev.nan THEN Reject("non-finite-predict")
+     ELSE IF ~num \/ ~Ev.fin \/ obs = <<>> THEN Adv /\ UNCHANGED <<num, obs, regular, used>>
      ELSE Judge1(IF PredictOk(dat.Xc, dat.bx.ex, obs.co, dat.by.mean, Ev.y) THEN "ok" ELSE "predict",
                  Adv /\ UNCHANGED <<num, obs, regular, used>>)
 
@@ -139,8 +144,8 @@ TUnseen ==
          ezx == CenErr(dat.bx, dat.scale, In.Z)
          ezy == CenErr(dat.by, dat.scale, In.ZY)
      IN IF Ev.st # <<m, K>> \/ Ev.su # <<m, K>> \/ Ev.sy # (IF IsSvdVariant THEN <<0, 0>> ELSE <<m, dat.q>>) THEN Reject("shape-unseen")
-        ELSE IF ~Ev.fin THEN Reject("non-finite-unseen")
-        ELSE IF ~num \/ (~IsSvdVariant /\ obs = <<>>) THEN Adv /\ UNCHANGED <<num, obs, regular, used>>
+        ELSE IF Ev.nan THEN Reject("non-finite-unseen")
+        ELSE IF ~num \/ ~Ev.fin \/ (~IsSvdVariant /\ obs = <<>>) THEN Adv /\ UNCHANGED <<num, obs, regular, used>>
         ELSE IF MaxAbsM(Zc) > Lim \/ MaxAbsM(Yz) > Lim THEN Adv /\ UNCHANGED <<num, obs, regular, used>>
         ELSE Judge1(IF IsSvdVariant
                       THEN (IF ~ProjOk(Zc, ezx, Mdl.xw, Ev.t) THEN "unseen-transform-x"
@@ -164,7 +169,8 @@ EquivWhy ==
   IN IF \E i \in 1..3 : evs[i].ev # "eq" \/ evs[i].variant # <<"reg", "can", "svd">>[i] \/ (evs[i].ok /\ evs[i].err # "none") THEN "protocol"
      ELSE IF \E i \in 1..3 : ~evs[i].ok /\ evs[i].err \notin RuntimeErrs THEN "fit-rejects-valid-request"
      ELSE IF ~evs[3].ok THEN "plssvd-fails"
-     ELSE IF \E i \in oks : ~evs[i].fin THEN "non-finite-scores"
+     ELSE IF \E i \in oks : evs[i].nan THEN "non-finite-scores"
+     ELSE IF \E i \in oks : ~evs[i].fin THEN (IF dat.c1zero \/ dat.bx.rank = 0 \/ dat.by.rank = 0 THEN "ok" ELSE "scores-off-grid")
      ELSE IF \E i \in oks : ~IsMat(evs[i].t, dat.n, 1) \/ ~IsMat(evs[i].w, dat.p, 1) THEN "shape-scores"
      \* one component: the rotation is the weight vector (p_1 . w_1 = 1), so the scores are Xc w_1 for all three estimators
      ELSE IF \E i \in oks : MaxAbsM(evs[i].w) <= Lim /\ MaxAbsM(evs[i].t) <= Lim /\ ~dat.c1zero /\ dat.bx.rank >= 1
